@@ -1,4 +1,5 @@
 import GqlVerif.Props.C14
+import GqlVerif.Proofs.ComposedC14
 open GqlVerif.C14
 #print axioms dep_table
 #print axioms never_omitted_unless_denied
@@ -6,3 +7,17 @@ open GqlVerif.C14
 #print axioms front_ends_agree
 #print axioms omitted_field_key_ignored
 #print axioms omitted_key_not_taken
+-- a key no member names is ignored: plain structs at any key position, and through flatten under KeyFree (Proofs/ComposedC14.lean)
+#print axioms GqlVerif.Composed.deOwnWith_erase
+#print axioms GqlVerif.Composed.denied_key_ignored_struct
+#print axioms GqlVerif.Composed.denied_key_ignored_struct_insert
+#print axioms GqlVerif.Composed.denied_key_ignored_dePath
+#print axioms GqlVerif.Composed.denied_key_ignored_flatten
+#print axioms GqlVerif.Composed.denied_key_ignored_flatten_insert
+#print axioms GqlVerif.Composed.denied_key_ignored_deTy
+#print axioms GqlVerif.Composed.deFlat_erase
+#print axioms GqlVerif.Composed.keyFree_of_all
+#print axioms GqlVerif.Composed.denied_key_ignored_de_of_fuel
+#print axioms GqlVerif.Composed.flattened_member_key_matters
+#print axioms GqlVerif.Composed.tag_key_matters
+#print axioms GqlVerif.Composed.oneOf_key_matters
